@@ -1,5 +1,5 @@
 /-
-C01 — structured control flow compiles to bytecode that means what the source says.      (PARTIAL, growing)
+C01 — structured control flow compiles to bytecode that means what the source says.      (PARTIAL)
 
 Three models (DESIGN Appendix B):
   (1) the faithful flow-stack compiler with backpatching (Model/Compile.lean) + the VM (Model/VM.lean) —
@@ -9,21 +9,30 @@ Three models (DESIGN Appendix B):
       stack, no backpatching), `evalS` (a direct big-step evaluator that never looks at an instruction pointer,
       a jump distance or bytecode) — Model/Structured.lean, Model/ParseS.lean.
 What is decided how:
+  * VM run of `compileS st` = `evalS st` — THEOREM `compiled_code_means_what_the_source_says` (below), proved by
+    forward simulation (Proofs/StructSim.lean, `sim_all`) for every program of the structured fragment, every
+    machine, every fuel: same data stack, variables, output (everything but log/meter/ip) when the program
+    completes, or the same error at an instruction the debug map attributes to the same token;
   * `compileS (parseS toks)` = the flow-stack compiler's bytecode and debug map: checked per generated program
-    by the driver (`C01 struct`, translation validation), not yet a theorem for all programs;
-  * VM run of that bytecode = `evalS` of the tree (same stack, variables, output, or same error at the same
-    token): theorems below for the fragment proved so far, `C01 struct` for every generated program.
+    by the driver (`C01 struct`, translation validation), not yet a theorem for all programs — this is the
+    remaining gap between the theorem and the real compiler's output;
+  * definitions, calls, locals, `late`: executed by the faithful compiler + VM models under correspondence
+    (`C01 build` / `C01 eval`), outside `Stmt`.
 Theorems here (all programs of the structured fragment, all machines, all fuel):
+  * `compiled_code_means_what_the_source_says` — see above;
   * `compileS_length` — the compositional compiler emits exactly `size` opcodes (every jump distance in
-    `compileS` is computed from `size`, so this is the well-formedness of all of them);
+    `compileS` is computed from `size`);
   * `no_stray_break` — a statement in a context where `break` is not allowed never evaluates to a travelling
     break; `counted_loop_never_breaks_out` — a counted loop absorbs every break of its body;
   * `endless_repeat_never_falls_through`, `endless_until_never_falls_through` — "a loop that structurally
     never terminates never falls through": `begin … repeat` without `break` and `begin … false until`
-    never produce a normal completion, whatever the body does and however long it runs.
+    never produce a normal completion, whatever the body does and however long it runs. Together with the main
+    theorem: the VM never reaches the end of such a loop's code either (it would have to agree with a
+    completed evaluation).
 -/
 import XehModel.Model.Structured
 import XehModel.Model.ParseS
+import XehModel.Proofs.StructSim
 
 namespace Xeh.C01
 open Xeh Xeh.Mach Xeh.Structured
@@ -230,5 +239,64 @@ theorem endless_until_never_falls_through (np : String → Option Prog) (t t' : 
           exact hne m2 hbody
     · rename_i r hne
       exact hne m' e
+
+/-! ### the compiled code means what the source says -/
+
+/-- the bytecode and the debug map of a whole program -/
+def codeOf (st : Stmt) : List Op := (compileS st .none none).map (·.1)
+def dmapOf (st : Stmt) : List Nat := (compileS st .none none).map (·.2)
+
+/-- **C01, main theorem (structured fragment).** Take any well-formed program `st` of the structured fragment
+    (every nesting of literals, native words, variable loads/stores, if/else/then, case/of/endof/endcase,
+    begin/until, begin/while/repeat, begin/repeat, do/loop, break; empty bodies and zero-trip loops included),
+    any machine `m` that holds its compiled code and stands at its first opcode, and any amount of fuel for
+    the structural evaluator. Then the VM does what the evaluator says:
+    * if the evaluator completes in `m'`, the VM — after finitely many successful steps — stands at the end
+      of the code in a machine that agrees with `m'` on data stack, variables (heap), output, loop stack,
+      return stack, builder stack, dictionary and code (everything but log, meter, ip);
+    * if the evaluator fails with error `e` at the opcode of token `tok`, the VM — after finitely many
+      successful steps — executes an instruction that the debug map attributes to `tok`, that instruction
+      fails with the same `e`, and the machine it leaves agrees with the evaluator's;
+    * the evaluator never lets a `break` or a finished `of … endof` arm escape a whole program. -/
+theorem compiled_code_means_what_the_source_says (np : String → Option Prog) (st : Stmt) (f : Nat) (m : Mach)
+    (hw : WFS st false false = true) (hsize : size st < 2^62)
+    (hcode : m.code = codeOf st) (hip : m.ctx.ip = 0) (hwf : WF m) (hlim : m.insnLimit = none) :
+    match evalS np f st m with
+    | .ok m' => ∃ n mv, C02.stepN np n m = some mv ∧ mv.ctx.ip = (codeOf st).length ∧ normX mv = normX m'
+    | .err e tok m' => ∃ n mv mv', C02.stepN np n m = some mv ∧ step np mv = (.err e, mv') ∧ normX mv' = normX m' ∧
+        (dmapOf st)[mv.ctx.ip]? = some tok
+    | .panic p tok m' => ∃ n mv mv', C02.stepN np n m = some mv ∧ step np mv = (.panic p, mv') ∧ normX mv' = normX m' ∧
+        (dmapOf st)[mv.ctx.ip]? = some tok
+    | .brk _ _ => False
+    | .exitCase _ => False
+    | .timeout => True := by
+  have hl : (codeOf st).length = size st := by simp [codeOf, Structured.compileS_length]
+  have hca : CodeAt (codeOf st) (dmapOf st) 0 (compileS st .none none) := by
+    intro i hi
+    simp [codeOf, dmapOf, List.getElem?_map, List.getElem?_eq_getElem hi]
+  have h := (sim_all np (codeOf st) (dmapOf st) (by rw [hl]; exact hsize) f).1 st .none none 0 m m
+    ⟨hwf, hlim, hcode⟩ (Rel.refl m) hip hca (by simpa using hw) trivial (by simp [hl])
+  have hne := (no_exit_aux np f).1 st m false hw
+  revert h hne
+  generalize evalS np f st m = r
+  intro h hne
+  cases r with
+  | ok m' =>
+    obtain ⟨n, mv, hs, hipv, hr, _⟩ := h
+    exact ⟨n, mv, hs, by rw [hipv, hl]; omega, hr⟩
+  | err e tok m' =>
+    obtain ⟨n, mv, mv', hs, hst, _, hr, hd⟩ := h
+    exact ⟨n, mv, mv', hs, hst, hr, hd⟩
+  | panic p tok m' =>
+    obtain ⟨n, mv, mv', hs, hst, _, hr, hd⟩ := h
+    exact ⟨n, mv, mv', hs, hst, hr, hd⟩
+  | brk t m' => obtain ⟨ipb, _, bb⟩ := h; exact bb.2
+  | exitCase m' => exact absurd rfl (hne m')
+  | timeout => trivial
+
+/-- the hypotheses are satisfiable: a counted loop with an empty body, on the machine that holds its code -/
+example : WFS (.doLoop 0 1 .skip) false false = true ∧ size (.doLoop 0 1 .skip) < 2^62 ∧
+    (({ code := codeOf (.doLoop 0 1 .skip) } : Mach).ctx.ip = 0) ∧ WF ({ code := codeOf (.doLoop 0 1 .skip) } : Mach) :=
+  ⟨rfl, by decide, rfl, ⟨Nat.le_refl _, Nat.le_refl _, Nat.le_refl _, Nat.le_refl _⟩⟩
 
 end Xeh.C01
